@@ -101,6 +101,7 @@ Ltac qeq :=
   first [ reflexivity
         | unfold Qdiv; ring
         | apply Qmin_comp; [first [reflexivity | ring] | first [reflexivity | unfold Qdiv; ring]]
+        | rewrite Q.min_comm; apply Qmin_comp; [first [reflexivity | ring] | first [reflexivity | unfold Qdiv; ring]]
         | apply Qplus_comp; [reflexivity|]; unfold Qdiv; ring ].
 
 (* a == b given the two forms of "the refilled level is cb1" *)
@@ -139,13 +140,12 @@ Proof.
 Qed.
 
 (* ---- TGet = from_1 ----------------------------------------------------------------------------------------- *)
-Lemma refilled (B r L U t : Q) (size : Z) (A : Type) (x y : A) :
-  (if negb (Qle_bool (inject_Z size) (Qmin B (L + (r * (t - U)) / (8 # 1)))) then x else y) =
-  (if Qlt_le_dec (Qred (refill B r L U t)) (inject_Z size) then x else y).
+Lemma refilled (lvl cb1 : Q) (size : Z) (A : Type) (x y : A) :
+  lvl == cb1 ->
+  (if negb (Qle_bool (inject_Z size) cb1) then x else y) = (if Qlt_le_dec lvl (inject_Z size) then x else y).
 Proof.
-  destruct (Qlt_le_dec (Qred (refill B r L U t)) (inject_Z size)) as [H|H]; rewrite Qred_correct in H;
-    destruct (Qle_bool (inject_Z size) (Qmin B (L + (r * (t - U)) / (8 # 1)))) eqn:E; qb; unfold refill, fill in H;
-    try reflexivity; exfalso; lra.
+  intros E. destruct (Qlt_le_dec lvl (inject_Z size)) as [H|H]; rewrite E in H;
+    destruct (Qle_bool (inject_Z size) cb1) eqn:E2; qb; try reflexivity; exfalso; lra.
 Qed.
 
 Lemma bridge_tb_run_get : forall (c : tbcfg) (s : tb) (dbg : bool),
@@ -161,14 +161,10 @@ Proof.
   destruct ph; try reflexivity. destruct (sq_take q0) as [[[a p] q]|]; [|reflexivity].
   destruct st; cbn [negb]; [|reflexivity].
   unfold tb_gen, gen_TokenBucket_run_from_1, tb_run_fields, with_tq. cbnq.
-  set (cb1 := Qmin (bsize c) (lv + (rate c * (nw - ut)) / (8 # 1))).
+  match goal with |- context [Qle_bool (inject_Z (psize p)) ?x] => set (cb1 := x) end.
   assert (E0 : refill (bsize c) (rate c) lv ut nw == cb1) by (subst cb1; qeq).
   assert (E1 : Qred (refill (bsize c) (rate c) lv ut nw) == cb1) by (rewrite Qred_correct; exact E0).
-  assert (T : forall (A : Type) (x y : A),
-             (if negb (Qle_bool (inject_Z (psize p)) cb1) then x else y) =
-             (if Qlt_le_dec (Qred (refill (bsize c) (rate c) lv ut nw)) (sz p) then x else y))
-    by (intros; subst cb1; apply refilled).
-  rewrite T. clearbody cb1.
+  clearbody cb1. rewrite (refilled (Qred (refill (bsize c) (rate c) lv ut nw)) cb1 (psize p) _ _ _ E1). fold (sz p).
   destruct (Qlt_le_dec (Qred (refill (bsize c) (rate c) lv ut nw)) (sz p)) as [Hw|Hw].
   - (* the token wait *)
     unfold tb_run_step. cbnq. req; qsolve E0 E1.
@@ -230,9 +226,9 @@ Lemma tb_run_get_explicit : forall (c : tbcfg) (s : tb) (p : pkt) (dbg : bool),
 Proof.
   intros c s p dbg lvl. subst lvl. destruct s as [nw q st lv ut ph nr ns].
   unfold tb_gen, gen_TokenBucket_run_from_1, tb_run_fields. cbnq.
-  set (cb1 := Qmin (bsize c) (lv + (rate c * (nw - ut)) / (8 # 1))).
+  match goal with |- context [Qle_bool (inject_Z (psize p)) ?x] => set (cb1 := x) end.
   assert (E1 : refill (bsize c) (rate c) lv ut nw == cb1) by (subst cb1; qeq).
-  destruct (Qlt_le_dec (refill (bsize c) (rate c) lv ut nw) (sz p)) as [Hw|Hw];
+  clearbody cb1. destruct (Qlt_le_dec (refill (bsize c) (rate c) lv ut nw) (sz p)) as [Hw|Hw];
     destruct (Qle_bool (inject_Z (psize p)) cb1) eqn:E; qb; unfold sz in *; try (exfalso; lra); cbnq.
   - split; [reflexivity|]. split; [symmetry; exact E1|]. split; [reflexivity|]. split; [reflexivity|].
     eexists; split; [reflexivity|]. unfold tokwait. rewrite E1. unfold Qdiv; ring.
